@@ -74,8 +74,8 @@ func rowOf(lat float64, h int64) float64 {
 // clearance). Calls outside it are produced only by the shared shrinker; the implementation is not called for them.
 //   - error paths (nil point, zoom outside 0..35, radius <= 0 or NaN) are always inside (they return before or at the first iteration),
 //     provided the line itself is short;
-//   - a positive radius needs hZoom >= 2; at hZoom 2..5 at most half a cell width, at hZoom >= 6 at most three cell widths
-//     (width taken at the end point farther from the equator);
+//   - a positive radius needs hZoom >= 2; at hZoom 2..5 at most half the width of the pole-ward edge of the end points' rows, at
+//     hZoom >= 6 at most three cell widths (width taken at the end point farther from the equator);
 //   - the line spans at most 120 cells on each axis and (line cells) x (stencil) stays below maxShifts.
 func inDomain(p1, p2 w.Val, h, v int64, radius float64) bool {
 	if !pointShape(p1) || !pointShape(p2) {
@@ -110,7 +110,14 @@ func inDomain(p1, p2 w.Val, h, v int64, radius float64) bool {
 	}
 	wmin := cellWidthM(h, math.Max(math.Abs(lat1), math.Abs(lat2)))
 	if h < 6 {
-		return radius <= 0.5*wmin
+		// coarse grids: rows are tall, and towards the poles the columns converge, so what bounds the reachable distance is the width
+		// of the fitted voxel's pole-ward edge; take the rows of both end points
+		edge := 0.0
+		for _, lat := range []float64{lat1, lat2} {
+			_, _, nth, sth := footprint(h, 0, int64(rowOf(lat, h)))
+			edge = math.Max(edge, math.Max(math.Abs(nth), math.Abs(sth)))
+		}
+		return radius <= 0.5*cellWidthM(h, math.Min(edge, 85.06))
 	}
 	if radius > 3*wmin {
 		return false
@@ -490,6 +497,16 @@ func genCorr(g *Gen) (corr, bool) {
 		lon = math.Copysign(180-g.R.Float64()*1.5*cl, sgn(g))
 		a = [3]float64{lon, lat, alt}
 		b = [3]float64{lon - math.Copysign(g.R.Float64()*3*cl, lon), lat + (g.R.Float64()*2-1)*2*cl*math.Cos(lat*math.Pi/180), alt}
+	case k < 47:
+		// exactly along a parallel or a meridian (finding class gjk_axis_parallel_segment in measured mode)
+		kind = "axis-parallel"
+		span := g.PickF(0.3, 1, 3, 6) * (0.5 + g.R.Float64())
+		a = [3]float64{lon, lat, alt}
+		if g.Chance(0.6) {
+			b = [3]float64{lon + sgn(g)*span*cl, lat, alt + (g.R.Float64()*2-1)*ca*g.PickF(0, 1)}
+		} else {
+			b = [3]float64{lon, lat + sgn(g)*span*cl*math.Cos(lat*math.Pi/180), alt}
+		}
 	case k < 52:
 		kind = "single-voxel"
 		q := g.PickF(0.01, 0.1, 0.3)
@@ -544,7 +561,10 @@ func genCorr(g *Gen) (corr, bool) {
 	wd := cellWidthM(h, math.Max(math.Abs(a[1]), math.Abs(b[1])))
 	c.r = units * wd
 	if units == 0 {
-		c.r = units // keeps -0
+		c.r = units // keeps -0 (not negative: accepted like 0)
+	}
+	if rtag == "r<0" && g.Chance(0.6) { // negative radii of the size of a tolerance
+		c.r, rtag = tinyNegative(g), "r=tiny-negative"
 	}
 	mode := "measured"
 	if c.skip {
@@ -555,11 +575,16 @@ func genCorr(g *Gen) (corr, bool) {
 		c.tags = append(c.tags, "lat>70")
 	}
 	c.mode = mode
-	c.triv = rtag == "r<0"
+	c.triv = rtag == "r<0" || rtag == "r=tiny-negative"
 	if !inDomain(c.p1, c.p2, c.h, c.v, c.r) {
 		return c, false
 	}
 	return c, true
+}
+
+// negative numbers too small for any absolute tolerance to tell from 0: still negative, still an error
+func tinyNegative(g *Gen) float64 {
+	return g.PickF(-1e-9, -1e-10, -1e-12, -1e-15, -1e-300, -5e-324, -2.2250738585072014e-308, -1e-7)
 }
 
 var badZooms = []int64{-1, 36, 37, 100, math.MinInt64, math.MaxInt64}
@@ -584,7 +609,7 @@ func spoil(g *Gen, c corr) corr {
 		c.r = -math.Abs(c.r) - g.PickF(1e-300, 1, 1e6)
 		c.tags = append(c.tags, "negative-radius")
 	case 5:
-		c.r = g.PickF(-5e-324, -1e-9, math.Inf(-1))
+		c.r = g.PickF(tinyNegative(g), tinyNegative(g), math.Inf(-1))
 		c.tags = append(c.tags, "negative-radius")
 	default:
 		c.p1, c.p2 = w.Nil{}, w.Nil{}
@@ -717,8 +742,11 @@ func genFit(g *Gen) (fitc, []string, bool) {
 	if units == 0 {
 		f.c = units
 	}
+	if rtag == "r<0" && g.Chance(0.6) {
+		f.c, rtag = tinyNegative(g), "r=tiny-negative"
+	}
 	tags := []string{hTag(h), rtag}
-	triv := rtag == "r<0"
+	triv := rtag == "r<0" || rtag == "r=tiny-negative"
 	switch k := g.Intn(100); {
 	case k < 14: // malformed ID, every kind of clearance (0 included: the ID is checked before anything is compared)
 		f.id = g.Malformed()
@@ -818,6 +846,25 @@ func init() {
 					Args: []w.Val{p1, p2, w.I(20), w.I(20), w.F(0), w.B(skip)}})
 				r.Run(run.Case{Prop: "C14", Fn: fnCorr, Tags: []string{"fixed-witness"},
 					Args: []w.Val{p1, p2, w.I(20), w.I(20), w.F(45), w.B(skip)}})
+			}
+		}
+		// the recorded witness of finding class gjk_axis_parallel_segment: a segment exactly along a parallel; the measured result keeps
+		// 23/1649574/2408208/20/{-2..2}, whose footprint is 3.80 m from the segment (radius 2.5 m)
+		if p1, ok := stored(-109.20797, 60.59197, 10); ok {
+			p2, _ := stored(-109.207915, 60.59197, 10)
+			r.Run(run.Case{Prop: "C14", Fn: fnCorr, Tags: []string{"fixed-witness", "gjk-witness"},
+				Args: []w.Val{p1, p2, w.I(23), w.I(20), w.F(2.5), w.B(false)}})
+		}
+		// a negative radius is an error however small it is; -0 is not negative (accepted like 0)
+		if p1, ok := stored(139.788452, 35.670930, 10); ok {
+			p2, _ := stored(139.788952, 35.671230, 12)
+			for _, rad := range []float64{-1e-10, -1e-12, -1e-300, -5e-324, -1e-9, -1e-6, -1, math.Copysign(0, -1)} {
+				for _, skip := range []bool{false, true} {
+					r.Run(run.Case{Prop: "C14", Fn: fnCorr, Tags: []string{"fixed-witness", "r=tiny-negative-or--0"}, Trivial: true,
+						Args: []w.Val{p1, p2, w.I(20), w.I(20), w.F(rad), w.B(skip)}})
+				}
+				r.Run(run.Case{Prop: "C14", Fn: fnFit, Tags: []string{"fixed-witness", "r=tiny-negative-or--0"}, Trivial: true,
+					Args: fitArgs(fitc{"20/931451/412943/20/0", rad})})
 			}
 		}
 		r.Run(run.Case{Prop: "C14", Fn: fnFit, Tags: []string{"fixed-witness"}, Trivial: true, Args: fitArgs(fitc{"20/1/1/20", 0})})
